@@ -38,13 +38,15 @@ type Engine struct {
 	inlineExternal map[string]bool
 	fileOf   map[string]*ast.File
 	exprMemo map[token.Pos]string
+	// package-level error variables initialised once with errors.New and never reassigned
+	constErr map[string]int64
 }
 
 func NewEngine(repo string) *Engine {
 	return &Engine{repo: repo, classes: map[string]*HeapClass{}, bases: map[string]*Heap{}, leafCls: map[string][]*HeapClass{},
 		typeIDs: map[string]int64{}, typeByID: map[int64]types.Type{}, strSnap: map[int]strSnap{}, funcs: map[string]*ssa.Function{},
 		inlineLimit: 60, inlineExternal: map[string]bool{}, fileOf: map[string]*ast.File{}, exprMemo: map[token.Pos]string{},
-		pkgByPath: map[string]*packages.Package{}}
+		pkgByPath: map[string]*packages.Package{}, constErr: map[string]int64{}}
 }
 
 // contractFiles finds all contract files under repo/pkg.
@@ -107,7 +109,84 @@ func (eng *Engine) Load(patterns []string) error {
 			}
 		}
 	}
+	eng.findConstErrors()
 	return nil
+}
+
+// findConstErrors: globals of type error whose only store is `errors.New(...)` in the package initialiser.
+func (eng *Engine) findConstErrors() {
+	type info struct {
+		stores  int
+		initNew bool
+	}
+	inf := map[string]*info{}
+	var names []string
+	for _, fn := range eng.allFunctions() {
+		for _, b := range fn.Blocks {
+			for _, in := range b.Instrs {
+				st, ok := in.(*ssa.Store)
+				if !ok {
+					continue
+				}
+				g, ok := st.Addr.(*ssa.Global)
+				if !ok {
+					continue
+				}
+				n := globName(g)
+				i := inf[n]
+				if i == nil {
+					i = &info{}
+					inf[n] = i
+					names = append(names, n)
+				}
+				i.stores++
+				if fn.Name() == "init" && fn.Synthetic != "" {
+					if call, ok := st.Val.(*ssa.Call); ok {
+						if c := call.Common().StaticCallee(); c != nil && c.String() == "errors.New" {
+							i.initNew = true
+						}
+					}
+				}
+			}
+		}
+	}
+	sort.Strings(names)
+	for _, n := range names {
+		if i := inf[n]; i.stores == 1 && i.initNew {
+			eng.constErr[n] = -int64(1000000 + len(eng.constErr))
+		}
+	}
+}
+
+func (eng *Engine) allFunctions() []*ssa.Function {
+	var out []*ssa.Function
+	seen := map[*ssa.Function]bool{}
+	var add func(f *ssa.Function)
+	add = func(f *ssa.Function) {
+		if f == nil || seen[f] {
+			return
+		}
+		seen[f] = true
+		out = append(out, f)
+		for _, a := range f.AnonFuncs {
+			add(a)
+		}
+	}
+	for _, p := range eng.pkgs {
+		sp := eng.prog.Package(p.Types)
+		if sp == nil {
+			continue
+		}
+		for _, m := range sp.Members {
+			if f, ok := m.(*ssa.Function); ok {
+				add(f)
+			}
+		}
+	}
+	for _, f := range eng.funcs {
+		add(f)
+	}
+	return out
 }
 
 func (eng *Engine) inRepo(fn *ssa.Function) bool {
